@@ -69,6 +69,15 @@ def oracle_fails(pid, rec):
 NOT_APPLICABLE = {}
 
 PROPS = {
+    "C04": {
+        "rule": "ALL programs of up to 3 (quick) / 4 (thorough) nodes over {output a, output b, assign a = 1, assign b = a, increment a, decrement b, include p with and without an argument named a, capture a [..], for a in (1..2) [..], for b in arr [..], if a [..]} nested to depth 3, every node followed by a separator and the program by a final read, each rendered with and without `a` as a caller datum (the partial reads `a`, assigns `a` and increments `b`); then random programs of depth 4 from the shared generator (all tags and blocks, include/render of a partial, a third of them with constructs that fail); the caller data object is serialised before and after every render; non-trivial = distinct (template,data) with a non-empty result",
+        "explanation": "Lean theorems C04_* (precedence of loop/include frames over assigned variables over caller data over counters; assign writes the nearest global frame from any depth and is then visible; a global frame never loses a name during the rest of the render, capture binds exactly what its body writes and prints nothing, frames are balanced and plain frames — caller data, loop variables — are never written, for EVERY template by the interpreter induction; increment prints then bumps) + differential run of the interpreter model against the real crate",
+        "exhaustive": True,
+        "manifest_text": "Lean 4 theorems proved for every template, runtime and sink by a generic induction principle over the render interpreter: rendering leaves exactly the frames it was given (a loop variable / include argument frame is gone when its block ends), never writes a plain frame (the caller's data object is never modified), and a global frame never loses a name once bound (assign/capture persist for the rest of the render); plus the lookup precedence loop/include frame > assigned variable > caller data > counter, assign reaching the nearest global frame from any depth, capture binding exactly the text its body writes while printing nothing, and increment/decrement semantics. Tied to /repo by rendering ALL programs up to a size bound over a deliberately colliding name alphabet and random larger programs with the real crate, comparing every output with the interpreter model and checking the caller data is unchanged.",
+        "manifest_note": "Trusted: Lean kernel + allowed axioms, theorem statements, hand-written interpreter model (validated differentially here and on six other properties). `render` partials (isolation) are C08.",
+        "technique": "Lean 4 proof (invariants lifted through the interpreter by a generic induction principle; refinement corollaries of C18) + exhaustive small-scope differential correspondence",
+        "design_ref": "DESIGN.md section 7 C04",
+    },
     "C10": {
         "rule": "generated templates with every writing construct (text, output tags, raw, cycle, increment/decrement, tablerow, ifchanged, capture, include/render of two partials, nested in loops, conditionals and case), a quarter of them with constructs that fail at render time; for each, a counting sink measures the W raw write calls of the fault-free run, then the render is repeated failing at EVERY k in 1..W and again accepting half of the k-th write before failing; non-trivial = distinct (template,data) with W >= 1",
         "explanation": "Lean theorems C10_* (prefix theorem for every template / start state / k via the sink simulation proved by the interpreter induction; accepted output is a prefix as fragments and as text; failing sink => the sink error; streamed = buffered; short writes; empty writes are free; generated table of write sites all propagate errors) + differential run: fault-free result and fragment structure against the model, and the spec (error, clean prefix ending exactly at the failing write, no write after the failure, no panic) evaluated on every fault run of the real crate",
